@@ -15,6 +15,10 @@ claimed = {
          "Theorems (all 8 integer targets, all Go integer kinds, floats as exact dyadics, decimal strings, every value): a successful conversion returns exactly the denoted number inside the target range; out-of-range, negative-into-unsigned and fractional sources are errors; in-range integer sources succeed; list forms are element-wise all-or-nothing; integer->decimal64 only when float64 holds the number exactly. Tie: clause tables regenerated from val/conv.go each run and closed by `decide`; the complete boundary matrix (targets × source kinds × boundary values) is diffed against the model in the quick tier.",
          "Trusted: Lean kernel, extractor (regex on gofmt-normalised clauses; unknown = opaque), harness; strconv.Parse*, math.Trunc, float64(int64) rounding (assumed contracts exercised by the correspondence). Partial: enum/bits/identityref/union front end (node.NewValue) is checked under C05; float64->string rounding is a recorded known finding.",
          "DESIGN.md §8 C10"),
+ "C11": ("Lean 4 theorem: the ported stack evaluator (loop + greedy flag + nested calls, fuel-indexed, fuel proved sufficient) computes the RFC 7950 meaning of every expression of the grammar under every assignment; exhaustive enumeration correspondence through LoadModule",
+         "Theorem eval_eq_sem: for every if-feature expression of the RFC 7950 grammar (unbounded size/nesting) and every feature assignment, evaluate(tokens e) = sem e — by mutual structural induction over the grammar with a fuel-monotonicity and fuel-sufficiency argument; cache transparency, allow/deny/all-on configurations, several-if-feature conjunction; witnesses of the pinned tree's defects. Tie: ALL expressions with ≤3 (quick) / ≤4 (thorough) operators × 2 renderings × 8 assignments loaded as guarded leaves and compared with model and Spec; all token sequences up to length 4/5 as malformed stream against the RFC recogniser; every guardable statement kind; one deviation of each kind with a frame check on the full schema dump.",
+         "Trusted: Lean kernel, harness; tokenizer model tied by the renderings only; parseRFC (Spec recogniser) not proved complete; guard_iff_present and deviation exactness are carried by the correspondence (finite, enumerated), not by a theorem.",
+         "DESIGN.md §8 C11"),
  "C17": ("Lean 4 theorems over the Compare/lookup model; go/ast translator regenerates the Compare-shape table the theorems quantify over; differential correspondence against val.Compare/Equal/CompareVals and Find on slice-backed lists",
          "Theorems (all operand widths, all operands, all key lists): every Compare shape found in val/types.go has the sign of the mathematical difference; equality is an equivalence, order a strict total order; CompareVals is lexicographic; sort.Search+EqualVals and the linear scan return exactly the entry with the requested key. Tie: table regenerated from source on every run and closed by `decide`; 8-bit types compared exhaustively with the model, wider ones on boundary squares.",
          "Trusted: Lean kernel, extractor (regex classification of gofmt-normalised method bodies; unknown shape = opaque = obligation fails), harness; sort.Sort contract, IEEE-754 for Decimal64, enum ids within int32.",
